@@ -45,8 +45,11 @@ def _run_on(patch, prop):
 
 
 def mutation_audit(ctx, prop):
+    from concurrent.futures import ThreadPoolExecutor
+
     sd = os.path.join(VERIF, "seeded")
     killed, total, det = 0, 0, []
+    todo = []
     for name in sorted(os.listdir(sd)):
         mp = os.path.join(sd, name, "meta.json")
         if not os.path.exists(mp):
@@ -54,7 +57,19 @@ def mutation_audit(ctx, prop):
         meta = json.load(open(mp))
         if prop != meta.get("property") and prop not in meta.get("also", []):
             continue
-        res = _run_on(os.path.join(sd, name, "patch.diff"), prop)
+        todo.append(("seed", name, os.path.join(sd, name, "patch.diff")))
+    bd = os.path.join(sd, "benign")
+    if os.path.isdir(bd):
+        for name in sorted(os.listdir(bd)):
+            pp = os.path.join(bd, name, "patch.diff")
+            if os.path.exists(pp):
+                todo.append(("benign", name, pp))
+    with ThreadPoolExecutor(max_workers=int(os.environ.get("VERIF_AUDIT_JOBS", "12"))) as ex:
+        results = dict(zip([(k, n) for k, n, _ in todo], ex.map(lambda t: _run_on(t[2], prop), todo)))
+    for name in sorted(os.listdir(sd)):
+        if ("seed", name) not in results:
+            continue
+        res = results[("seed", name)]
         if res.startswith("skipped"):
             det.append({"seed": name, "result": res})
             continue
@@ -69,7 +84,7 @@ def mutation_audit(ctx, prop):
             pp = os.path.join(bd, name, "patch.diff")
             if not os.path.exists(pp):
                 continue
-            res = _run_on(pp, prop)
+            res = results.get(("benign", name)) or "skipped"
             if res.startswith("skipped"):
                 continue
             btotal += 1
